@@ -1,6 +1,8 @@
 """C01 -- OrderedMultiDict == insertion-ordered list of pairs (structural clauses)."""
 import ast
 from rules import omdstep, onepass
+from sa.index import FuncInfo
+from sa.paths import call_name
 from rules.common import check_get_none_presence, txt
 
 SUBJECTS = ('dictutils.OrderedMultiDict', 'urlutils.OrderedMultiDict')
@@ -54,6 +56,39 @@ def run(ctx):
         onepass.check(ctx, ctx.program.func(cls + '.fromkeys'), 'keys', recv=ctx.program.cls(cls))
         onepass.first_seen(ctx, ctx.program.func(cls + '.update'))
         check_get_none_presence(ctx, ctx.program.func(cls + '.__eq__'))
+        # T27: order-of-all-pairs consumers read the pair view
+        prog = ctx.program
+        cname = cls.split('.')[-1]
+        eq = prog.func(cls + '.__eq__')
+        branch = [n for n in ast.walk(eq.node) if isinstance(n, ast.If) and isinstance(n.test, ast.Call) and
+                  call_name(n.test) == 'isinstance' and len(n.test.args) == 2 and txt(n.test.args[0]) == eq.params[1] and
+                  cname in txt(n.test.args[1])]
+        if not branch:
+            ctx.unknown('T27', eq.fq, 'no isinstance(other, %s) branch found' % cname, eq.loc)
+        else:
+            onepass.pair_view(ctx, eq, branch[0].body, ['self', eq.params[1]], 'comparison of two %ss' % cname)
+        gs = prog.resolve(prog.cls(cls), '__getstate__')
+        if isinstance(gs, FuncInfo):
+            onepass.pair_view(ctx, gs, gs.node.body, ['self'], 'pickled / copied state')
+        cp = prog.func(cls + '.copy')
+        onepass.pair_view(ctx, cp, cp.node.body, ['self'], 'copy()')
+        pl = prog.func(cls + '.poplast')
+        dflt = [n for n in ast.walk(pl.node) if isinstance(n, ast.If) and isinstance(n.test, ast.Compare) and
+                txt(n.test.left) == pl.params[1] and isinstance(n.test.ops[0], ast.Is) and txt(n.test.comparators[0]) == '_MISSING']
+        if not dflt:
+            ctx.unknown('T27', pl.fq, 'no `%s is _MISSING` branch found' % pl.params[1], pl.loc)
+        else:
+            onepass.pair_view(ctx, pl, dflt[0].body, ['self'], 'poplast() without a key takes the key of the last pair')
+        pi = prog.cls(cls).own('popitem')
+        if isinstance(pi, FuncInfo):          # an inherited popitem is reported by T1
+            onepass.pair_view(ctx, pi, pi.node.body, ['self'], 'popitem() takes the last pair')
+        # T28: unlink statements of the ring are well-formed
+        n_sp = 0
+        for nm, mem in prog.cls(cls).members.items():
+            if isinstance(mem, FuncInfo):
+                n_sp += onepass.splice_shape(ctx, mem)
+        if n_sp == 0:
+            ctx.info('T28: no unlink statement of the form X[a][b] = X[c] in %s' % cls)
         # constructor: positional source appended pair by pair (update_extend), keyword arguments assigned (update)
         init = ctx.program.func(cls + '.__init__')
         calls = {}
